@@ -220,7 +220,7 @@ def decode_inst(E, m, fc, toks, bi, slot, operand, lidx, mk_jump, zero_of):
             fr.allocas.append(oid); R[d] = Ptr(oid, 0)
         return f
     if op == 'load':
-        p.accept('kw', 'volatile'); p.accept('kw', 'atomic')
+        p.accept('kw', 'atomic'); p.accept('kw', 'volatile')
         ty = m.parse_type(p); p.expect('sym', ','); pt = m.parse_type(p); pr, pv = operand(p, pt)
         rt = m.resolve(ty); n = m.sizeof(rt)
         isptr = isinstance(rt, PtrTy)
@@ -259,7 +259,7 @@ def decode_inst(E, m, fc, toks, bi, slot, operand, lidx, mk_jump, zero_of):
             R[d] = v
         return f
     if op == 'store':
-        p.accept('kw', 'volatile'); p.accept('kw', 'atomic')
+        p.accept('kw', 'atomic'); p.accept('kw', 'volatile')
         ty = m.parse_type(p); vr, vv = operand(p, ty); p.expect('sym', ','); pt = m.parse_type(p); pr, pv = operand(p, pt)
         rt = m.resolve(ty); n = m.sizeof(rt)
         isptr = isinstance(rt, PtrTy)
